@@ -4,7 +4,7 @@ from __future__ import annotations
 import itertools
 
 from sa.harness import H
-from sa.ae import Seq, DictV, ProxyV, Tok, Obj, Unknown, ClassV
+from sa.ae import Seq, DictV, ProxyV, Tok, Obj, Unknown, ClassV, Raised
 from sa.src import SourceError
 from rules import common
 
@@ -139,11 +139,14 @@ def run(ctx):
                         extra = {"n": nu}
                         nl = nu.fields.get("_laws")
                         if op == "Universe()":
+                            # a universe built without laws either has none or owns a fresh law set that points back at it
                             if isinstance(nl, Obj):
                                 nl.name = "Ln"
                                 extra["Ln"] = nl
-                            model["laws"]["n"] = "Ln"
-                            model["applies_to"]["Ln"] = "n"
+                                model["laws"]["n"] = "Ln"
+                                model["applies_to"]["Ln"] = "n"
+                            else:
+                                model["laws"]["n"] = None
                         else:
                             model["laws"]["n"] = None
                             m_bind(model, "n", y)
@@ -243,12 +246,17 @@ def readonly(ctx, h, res):
         if not ok:
             res.violation("READONLY", LAWS + "." + a, "read-back", f"UniverseLaws.{a} reads back {g!r}, not what was passed at construction")
         s = h.setattr(L, a, Tok(99, "other"))
+        try:
+            h.I.delattr(L, a)
+            dl = "return"
+        except Raised as r_:
+            dl = "raise " + r_.exc.cls.name
         g2 = h.getattr(L, a)
         changed = not (g2.kind == "return" and (whitelist_equal(g2.value, wl) if a == "edge_whitelist" else g2.value is toks[a]))
-        ok2 = s.kind == "raise" and not changed
+        ok2 = not changed      # "cannot be changed afterwards": whether the attempt raises or is ignored is not specified
         res.ob(ok2, sig=("readonly", a))
         if not ok2:
-            res.violation("READONLY", LAWS + "." + a, "assign", f"assigning UniverseLaws.{a} gives {s!r} and the attribute then reads {g2!r}: rule attributes cannot be changed after construction")
+            res.violation("READONLY", LAWS + "." + a, "assign", f"after assigning (-> {s!r}) and deleting (-> {dl}) UniverseLaws.{a} the attribute reads {g2!r}: rule attributes cannot be changed after construction")
     # default construction reads back the documented defaults (None whitelist)
     out = h.call(lawcls)
     if out.kind == "return":
